@@ -124,6 +124,19 @@ Theorem C03_rescale_variance_no_observations (fs : seq (fper M n nw)) :
   l_var_scale (likelihood true fs) = 1 /\ l_nll (likelihood true fs) = 2%:R^-1 * LD_of fs.
 Proof. exact: rescaled_likelihood_no_obs. Qed.
 
+(* 6'. ... and that concentrated likelihood is the plain likelihood of the same model with every covariance
+       (initial MSE, transition and measurement shock covariances) multiplied by var_scale; the two runs have
+       the same means, gains and prediction errors and every MSE of the rescaled run is var_scale times the
+       original one (scaled_runs), which is what rescale_stds applies to the reported standard deviations *)
+Theorem C03_rescale_is_scaled_model (a : 'cV[F]_n) (Q : 'M[F]_n) (ps : seq (period M n nw)) :
+  is_sym Q -> all_ok ps -> all_unit (krun a Q ps) ->
+  let fs := krun a Q ps in
+  N_of fs != 0%N -> QF_of fs != 0 ->
+  let vs := l_var_scale (likelihood true fs) in
+  let fs' := krun a (vs *: Q) [seq scale_period vs p | p <- ps] in
+  scaled_runs vs fs fs' /\ l_nll (likelihood true fs) = l_nll (likelihood false fs').
+Proof. exact: rescale_is_scaled_model. Qed.
+
 (* 7. the filter equals batch conditioning (induction over the periods from 1-2): the joint Gaussian law
       of (alpha_t, Y_t), Y_t = the stacked observations of periods 1..t, is built by push-forward through
       the transition equation (jpredict) and augmentation by the new observation (jobserve); after ANY
@@ -160,4 +173,5 @@ Print Assumptions C03_likelihood_closed_form.
 Print Assumptions C03_empty_period_contributes_zero.
 Print Assumptions C03_rescale_variance_law.
 Print Assumptions C03_rescale_variance_no_observations.
+Print Assumptions C03_rescale_is_scaled_model.
 Print Assumptions C03_filter_is_batch.
